@@ -32,7 +32,11 @@ RULE = ("seeded sequence pairs as in C08 (length 0-8 quick, a few long ones > IN
         "X-drop boundary cases (a mismatch run whose drop equals the threshold +-1 followed by recovery), seeds taken from "
         "an optimal local alignment, and regions engineered to hold the maximum score in several cells reached by traces of "
         "different lengths with max_number in {2,5,50} (every returned alignment checked, pairwise distinct), and long regions whose "
-        "table grows to exactly max_table_size +-1 cells (smallest accepted limit must be a possible table size).  "
+        "table grows to exactly max_table_size +-1 cells (smallest accepted limit must be a possible table size), regions of "
+        "length INIT_SIZE-2..+1; an argument-spelling / reuse stream (one set of objects reused for ~20 calls: tuple/list/ndarray/"
+        "NumPy-scalar spellings of band, seed, threshold, max_number, max_table_size, flags; strided / read-only codes, F-ordered "
+        "matrix; defaults vs documented values; refused calls leave inputs unchanged; a different request in between) and direct "
+        "calls of get_global_trace_starts, _extend_table, _seed_extend_generic.  Every call runs in a forked child (CRASH = verdict).  "
         "Each heuristic's score is compared with the executable Lean model (bandedFill / regionAlign / xdropExtend), and every "
         "returned trace goes through the verified checker `checkResult`.  Oracle: validity, rescoring from the trace "
         "(completed by the unaligned ends for semi-global), band / seed / direction containment, score_only equality, "
